@@ -7,7 +7,8 @@ import proto
 from common import gen_data, rel
 
 TRUSTED_BASE = [
-    "scipy.linalg.lstsq is a parameter (contract: returns a minimiser); the model solves the normal equations exactly",
+    "scipy.linalg.lstsq is a parameter (contract: returns a minimiser); the model solves the normal equations exactly by Gauss-Jordan "
+    "elimination, which is verified in Lean for any field with a lawful zero test (C14.solveMat_solves, lsFit_normalEq, lsFit_succeeds_iff)",
     "arcovar_marple / modcovar_marple: modelled twice - at specification level (the least-squares solution and the minimum per "
     "sample) and as a step-by-step transliteration of the recursions (Model/Marple.lean); the correspondence compares the Python "
     "routines with both, and the two models with each other in exact rational arithmetic (kind recexact)",
